@@ -88,7 +88,9 @@ def parseCfg (ws : List String) : Cfg :=
   let inj := natList (field ws "inj")
   -- rows: states 0..n-1, then the head as the last row
   let row (sid : Nat) : Nat := if sid == 255 then n else sid
-  { n := n, L := nat! (field ws "L"), cap := nat! (field ws "cap"), hasHead := b "head", manual := b "manual",
+  -- `cap=` is what the program passes to `Config::TaskCapacityN<>`; the effective capacity follows the
+  -- rule translated from the source (255 = INVALID_LONG means "not configured": the state count)
+  { n := n, L := nat! (field ws "L"), cap := Gen.taskCapacity (nat! (field ws "cap")) n, hasHead := b "head", manual := b "manual",
     hasPayload := b "payload", plans := b "plans", history := b "history", serialization := b "serial",
     logging := b "log", verbose := b "verbose",
     defines := fun sid m => ((defs.getD (row sid) "").toList.getD (methodIndex m) '0') == '1',
